@@ -15,6 +15,11 @@ From Pymoto Require Import Base.Num Model.AutoSolver.
 Import ListNotations.
 Definition o (z : Z) : option bool := if (z =? 0)%Z then Some false else if (z =? 1)%Z then Some true else None.
 '''
+CLS_HEADER = '''From Coq Require Import ZArith QArith List Bool.
+From Pymoto Require Import Base.Num Base.CQMat Model.AutoSolver Model.MatrixChecks.
+Import ListNotations.
+Open Scope Q_scope.
+'''
 ERR_HEADER = '''From Coq Require Import ZArith List Bool.
 From Pymoto Require Import Base.Num.
 Import ListNotations.
@@ -34,7 +39,8 @@ def translate(ctx):
     ok_all = True
     jobs = [('SolverGen.v', gen_C05.gen_dense, 'SolverBridge.v', 'pymoto/solvers/dense.py + sparse.py: solve() terms'),
             ('CGGen.v', gen_C05.gen_cg, 'CGBridge.v', 'pymoto/solvers/iterative.py: CG loop body'),
-            ('AutoGen.v', gen_C05.gen_auto, 'AutoBridge.v', 'pymoto/solvers/auto_determine.py: decision procedure')]
+            ('AutoGen.v', gen_C05.gen_auto, 'AutoBridge.v', 'pymoto/solvers/auto_determine.py: decision procedure'),
+            ('ChecksGen.v', gen_C05.gen_checks, 'ChecksBridge.v', 'pymoto/solvers/matrix_checks.py: matrix predicates, every container branch')]
     for gname, fn, bname, what in jobs:
         err = ''
         try:
@@ -123,413 +129,3 @@ def validate_contracts(ctx, solver, A, rng):
     return bad
 
 
-# ----------------------------------------------------------------------------- case generation
-def solver_menu(pym, cls, cplx, sparse):
-    """(label, constructor) list of solvers whose documented class contains the matrix class"""
-    S = pym.solvers
-    menu = []
-    herm = cls in lc.HERMITIAN
-    symm = cls in ('spd', 'snd', 'indef', 'zerodiag', 'csym') or (cls == 'diag')
-    if sparse:
-        menu.append(('SolverSparseLU', lambda: S.SolverSparseLU()))
-        if cls == 'diag':
-            menu.append(('SolverDiagonal', lambda: S.SolverDiagonal()))
-    else:
-        menu.append(('SolverDenseQR', lambda: S.SolverDenseQR()))
-        menu.append(('SolverDenseLU', lambda: S.SolverDenseLU()))
-        if cls == 'diag':
-            menu.append(('SolverDiagonal', lambda: S.SolverDiagonal()))
-        if herm:
-            menu.append(('SolverDenseCholesky', lambda: S.SolverDenseCholesky()))
-            menu.append(('SolverDenseLDL(None)', lambda: S.SolverDenseLDL()))
-            menu.append(('SolverDenseLDL(True)', lambda: S.SolverDenseLDL(hermitian=True)))
-            if not cplx:
-                menu.append(('SolverDenseLDL(False)', lambda: S.SolverDenseLDL(hermitian=False)))
-        if cls == 'csym':
-            menu.append(('SolverDenseLDL(None)', lambda: S.SolverDenseLDL()))
-            menu.append(('SolverDenseLDL(False)', lambda: S.SolverDenseLDL(hermitian=False)))
-    menu.append(('auto_determine_solver', None))
-    return menu
-
-
-def storage(A, kind):
-    if kind == 'dense':
-        return A
-    return {'csc': sps.csc_matrix, 'csr': sps.csr_matrix, 'coo': sps.coo_matrix}[kind](A)
-
-
-def kind_of(solver):
-    """observed result of auto_determine_solver as a Coq solver_kind term"""
-    n = type(solver).__name__
-
-    def ob(v):
-        return 'None' if v is None else '(Some true)' if v else '(Some false)'
-    if n == 'SolverDenseLDL':
-        return f'(KDenseLDL {ob(solver.hermitian)})'
-    if n == 'SolverSparsePardiso':
-        return f'(KPardiso {ob(solver.kw["symmetric"])} {ob(solver.kw["hermitian"])} {ob(solver.kw["positive_definite"])})'
-    return {'SolverDenseQR': 'KDenseQR', 'SolverDiagonal': 'KDiagonal', 'SolverSparseCholeskyScikit': 'KSparseCholScikit',
-            'SolverSparseCholeskyCVXOPT': 'KSparseCholCVXOPT', 'SolverSparseLU': 'KSparseLU',
-            'SolverDenseCholesky': 'KDenseCholesky', 'SolverDenseLU': 'KDenseLU'}[n]
-
-
-def coq_auto(flags, avail, ov):
-    def b(v):
-        return 'true' if v else 'false'
-
-    def oz(v):
-        return '(o 2)' if v is None else '(o 1)' if v else '(o 0)'
-    f = flags
-    return ('auto_solver ' + ' '.join(b(f[k]) for k in ('sparse', 'square', 'diag', 'cplx', 'herm', 'sym', 'dpos', 'dneg')) + ' '
-            + ' '.join(b(a) for a in avail) + ' ' + ' '.join(oz(ov.get(k)) for k in ('isdiagonal', 'ishermitian', 'issymmetric', 'ispositivedefinite')))
-
-
-class _Stub:
-    """stands for an optional-package solver whose package is absent: records constructor arguments only"""
-    defined = True
-
-    def __init__(self, **kw):
-        self.kw = kw
-
-
-def auto_with_availability(pym, A, avail, ov):
-    """call the real auto_determine_solver with the availability flags of the optional packages patched from outside"""
-    import pymoto.solvers.auto_determine as ad
-    names = ['SolverSparsePardiso', 'SolverSparseCholeskyScikit', 'SolverSparseCholeskyCVXOPT']
-    saved = {k: getattr(ad, k) for k in names}
-    try:
-        for k, a in zip(names, avail):
-            if a:
-                setattr(ad, k, type(k, (_Stub,), {}))
-        return ad.auto_determine_solver(A, **ov)
-    finally:
-        for k in names:
-            setattr(ad, k, saved[k])
-
-
-def run(ctx):
-    warnings.simplefilter('ignore')
-    import pymoto as pym
-    ctx.rule = ('matrices of every class (diagonal, SPD/HPD, negative definite, symmetric/Hermitian indefinite, zero-diagonal '
-                '(2x2 pivots), complex symmetric, general, row-permuted, triangular) with integer / Gaussian-integer entries, '
-                'non-singular by (permuted) strict diagonal dominance, n = 1..8, dense/csc/csr/coo storage; every solver whose '
-                'documented class contains the matrix x trans N/T/H x right-hand sides (n), (n,1), (n,k) incl. dependent, duplicate, '
-                'zero and n+1 columns, real and complex.  A case is non-trivial when n >= 2; distinct by (solver, class, n, '
-                'storage, trans, rhs kind, values).  auto_determine_solver: every matrix x overrides x 8 availability patterns.')
-    ctx.assumptions += ['theorems are over exact arithmetic in an arbitrary star ring; floating-point accuracy of LAPACK/SuperLU is '
-                        'validated (1e-9 relative, in exact Q inside Coq against the exact rational solution), not proved',
-                        'convergence of CG / multigrid is run-time behaviour (post-condition checked), not proved',
-                        'pypardiso / scikit-sparse / cvxopt are absent: only their decision-table rows are covered']
-    ctx.trusted += ['Print Assumptions: all C05 theorems are closed under the global context (mathcomp ssreflect/algebra, no axioms)',
-                    'tools/gen_C05.py (T-alg / T-dec translators, fail-closed) and the reading of numpy/scipy expressions it embodies '
-                    '(@ = product, .T/.conj(), x[p] = P x, u[p] = x as P^T x for a permutation p, solve_triangular flags)',
-                    'library contracts (scipy.linalg.qr/lu/cholesky/ldl/solve_triangular, numpy division, SuperLU solve, np.linalg.inv): '
-                    'premises of the theorems, validated on every factorisation the harness creates (oracle_validation)',
-                    'exact rational reference solutions are computed in Python (fractions) and CHECKED inside Coq (op_t(A) X = B exactly)']
-    vlib.audit(ctx)
-    if not vlib.ensure_static(ctx):
-        return
-    gen_ok = translate(ctx)
-    vlib.check_props(ctx)
-
-    rng = ctx.rng
-    checks, labels, meta = [], [], []
-    auto_checks, auto_labels = [], []
-    err_checks, err_labels = [], []
-    oracle_fail = []
-
-    def add_solve_case(label, A_exact, t, b, x, Ad, solver_label, cls, replay):
-        """x: implementation's answer (numpy).  Adds the in-Coq check and runs the implementation-side oracle."""
-        B = cq_matrix(b)
-        X = cq_solve(cq_op(A_exact, t), B)
-        assert X is not None
-        xs = np.asarray(x)
-        shape_ok = xs.shape == np.asarray(b).shape
-        want_c = np.iscomplexobj(Ad) or np.iscomplexobj(b)
-        dtype_ok = (xs.dtype.kind == 'c') == want_c and xs.dtype.itemsize == (16 if want_c else 8)
-        if shape_ok:
-            chk = coq_check_solve(A_exact, t, X, B, xs)
-        else:
-            chk = 'false'
-        checks.append(f'({chk}) && {vlib.blit(shape_ok)} && {vlib.blit(dtype_ok)}')
-        labels.append(label)
-        meta.append(replay)
-        ctx.case(label, len(A_exact) >= 2, sample=dict(case=str(label), coq=checks[-1][:300]))
-        # implementation-side oracle: residual of the requested system, shape, dtype class
-        ctx.search_evaluations += 1
-        res_ok = shape_ok and close(opmat(Ad, t) @ xs, np.asarray(b, dtype=complex if want_c else float))
-        if not (res_ok and shape_ok and dtype_ok):
-            pred = 'op_trans(A) x = b' if not res_ok else 'x has the shape and dtype class of b'
-            oracle_fail.append(len(checks) - 1)
-            ctx.violation('impl-violates', solver_label.split('(')[0] + '.solve', pred, f'{cls} matrix', replay,
-                          expected=[[str(v) for v in r] for r in X], got=np.asarray(x).tolist().__repr__()[:2000])
-
-    # ---- corpus first
-    corpus = load_corpus()
-    mats = []
-    for c in corpus:
-        A = np.array([[complex(*v) if isinstance(v, list) else v for v in row] for row in c['A']])
-        A = A.astype(complex) if np.iscomplexobj(A) and np.any(A.imag) or c.get('complex') else A.real.astype(float)
-        mats.append((c.get('class', 'corpus'), A, c.get('name', 'corpus'), True))
-    # ---- generated matrices
-    nmat = 56 if ctx.quick() else 450
-    sizes = [1, 2, 3, 3, 4, 4, 5, 5, 6, 7, 8]
-    k = 0
-    while len(mats) < len(corpus) + nmat:
-        cplx = k % 2 == 1
-        clss = lc.CLASSES_CPLX if cplx else lc.CLASSES_REAL
-        cls = clss[(k // 2) % len(clss)]
-        n = sizes[rng.randrange(len(sizes))]
-        if cls in ('zerodiag', 'hzerodiag'):
-            n = max(2, n + n % 2)
-        if cls in ('indef', 'hindef', 'general', 'permuted', 'csym', 'lower', 'upper') and n < 2:
-            n = 2
-        k += 1
-        mats.append((cls, lc.gen_matrix(rng, cls, n, cplx), f'gen{k}', False))
-
-    from pymoto.solvers import auto_determine_solver
-    for (cls, A, name, from_corpus) in mats:
-        n = A.shape[0]
-        cplx = np.iscomplexobj(A)
-        A_exact = cq_matrix(A)
-        fl = lc.classify(A)
-        if cls == 'corpus':
-            cls = 'diag' if fl['diag'] else ('spd' if fl['herm'] and fl['dpos'] and not cplx else 'general')
-        ctx.count(f'class:{cls}')
-        ctx.count(f'n:{n}')
-        ctx.count('complex' if cplx else 'real')
-        for stor in (['dense', 'csc'] if k % 3 else ['dense', 'csr', 'coo']) if not from_corpus else ['dense', 'csc', 'csr']:
-            As = storage(A, stor)
-            sparse = stor != 'dense'
-            for slabel, ctor in solver_menu(pym, cls, cplx, sparse):
-                try:
-                    solver = auto_determine_solver(As) if ctor is None else ctor()
-                    solver.update(As)
-                except Exception as e:  # a solver that cannot factorise a matrix of its own class
-                    ctx.violation('impl-violates', slabel.split('(')[0] + '.update', 'factorisation of a matrix of the documented class',
-                                  f'{cls} matrix', dict(solver=slabel, A=A.tolist().__repr__(), storage=stor, error=repr(e)))
-                    continue
-                ctx.count(f'solver:{slabel}')
-                if type(solver).__name__ == 'SolverDenseCholesky':
-                    ctx.count('cholesky:success' if solver.success else 'cholesky:fallback')
-                if type(solver).__name__ == 'SolverDenseLDL' or (type(solver).__name__ == 'SolverDenseCholesky' and not solver.success):
-                    s_ = solver if type(solver).__name__ == 'SolverDenseLDL' else solver.backup_solver
-                    ctx.count('ldl:D diagonal' if np.array_equal(s_.d, np.diag(np.diag(s_.d))) else 'ldl:D with 2x2 blocks')
-                badc = validate_contracts(ctx, solver, As, rng)
-                for bc in badc:
-                    ctx.violation('correspondence', type(solver).__name__ + '.update', 'library contract: ' + bc, f'{cls} matrix',
-                                  dict(solver=slabel, A=A.tolist().__repr__(), storage=stor),
-                                  note='a premise of the C05 theorem does not hold for the factors the solver stored')
-                # right-hand sides
-                kinds = ['vec', rng.choice(['col', 'blk', 'dup', 'wide', 'zero'])]
-                for bk in kinds:
-                    bc_ = cplx or (rng.random() < 0.3 and not sparse)   # complex rhs for a real sparse matrix: malformed stream
-                    b = lc.gen_rhs(rng, n, bk, bc_)
-                    for t in 'NTH':
-                        replay = dict(solver=slabel, storage=stor, cls=cls, A=A.tolist().__repr__(), b=b.tolist().__repr__(), trans=t)
-                        ctx.count(f'trans:{t}')
-                        ctx.count(f'rhs:{bk}:{"complex" if bc_ else "real"}')
-                        try:
-                            if rng.random() < 0.3:   # direct solvers accept (and ignore) an initial guess
-                                ctx.count('direct solver with x0')
-                                x = solver.solve(b.copy(), x0=np.ones_like(b), trans=t)
-                            else:
-                                x = solver.solve(b.copy(), trans=t)
-                        except Exception as e:
-                            ctx.evaluations += 1
-                            ctx.violation('impl-violates', slabel.split('(')[0] + '.solve', 'solve raises for a matrix of the documented class',
-                                          f'{cls} matrix', dict(replay, error=repr(e)))
-                            continue
-                        add_solve_case((slabel, cls, n, stor, t, bk, name), A_exact, t, b, x, A, slabel, cls, replay)
-            # ---- (iii) decision table, all availability patterns, overrides
-            flags = dict(fl, sparse=sparse, square=True)
-            ovs = [dict(), dict(ishermitian=fl['herm']), dict(issymmetric=fl['sym']), dict(isdiagonal=fl['diag']),
-                   dict(ishermitian=fl['herm'], issymmetric=fl['sym']), dict(ispositivedefinite=cls in lc.DEFINITE),
-                   dict(ishermitian=not fl['herm']), dict(issymmetric=not fl['sym'], ishermitian=fl['herm']),
-                   dict(isdiagonal=not fl['diag']), dict(ispositivedefinite=True), dict(ispositivedefinite=False, ishermitian=True)]
-            for ov in ovs:
-                for avail in itertools.product((False, True), repeat=3) if sparse else [(False, False, False), (True, True, True)]:
-                    try:
-                        got = kind_of(auto_with_availability(pym, As, avail, ov))
-                    except AssertionError:
-                        got = 'KAssertionError'
-                    except Exception as e:
-                        ctx.evaluations += 1
-                        ctx.violation('impl-violates', 'auto_determine_solver', 'returns a solver for every non-singular square matrix',
-                                      f'{cls} matrix', dict(A=A.tolist().__repr__(), storage=stor, overrides=ov, avail=avail, error=repr(e)))
-                        continue
-                    auto_checks.append(f'kind_eqb ({coq_auto(flags, avail, ov)}) {got}')
-                    auto_labels.append(dict(A=A.tolist().__repr__(), storage=stor, overrides=ov, avail=avail, got=got))
-                    ctx.case(('auto', name, stor, tuple(sorted(ov.items())), avail), n >= 2)
-                    ctx.count('auto:' + got.strip('()').split()[0])
-        # non-square: QR
-    # non-square matrices go to QR
-    for shp in ((2, 3), (3, 2)):
-        for sp in (False, True):
-            Ans = np.arange(6, dtype=float).reshape(shp)
-            got = kind_of(auto_determine_solver(sps.csc_matrix(Ans) if sp else Ans))
-            fl = dict(sparse=sp, square=False, diag=False, cplx=False, herm=False, sym=False, dpos=False, dneg=False)
-            auto_checks.append(f'kind_eqb ({coq_auto(fl, (False, False, False), {})}) {got}')
-            auto_labels.append(dict(shape=shp, sparse=sp, got=got))
-            ctx.case(('auto-nonsquare', shp, sp), True)
-
-    # ---- malformed stream: only the exception class is compared (invalid trans -> TypeError, complex rhs on real SuperLU -> TypeError)
-    S = pym.solvers
-    A3 = np.array([[4., 1, 0], [1, 5, 2], [0, 2, 6]])
-    bad_trans_expect = {}
-    tree, _ = py2coq.parse_file(os.path.join(vlib.REPO, 'pymoto/solvers/dense.py'))
-    for ctor, arg in ((S.SolverDenseQR, A3), (S.SolverDenseLU, A3), (S.SolverDenseCholesky, A3), (S.SolverDenseLDL, A3),
-                      (S.SolverSparseLU, sps.csc_matrix(A3)), (S.CG, sps.csc_matrix(A3))):
-        for tr_ in ('X', 'C', 'n', None):
-            try:
-                ctor(arg).solve(np.ones(3), trans=tr_)
-                got = 'none'
-            except Exception as e:
-                got = lc.exc_enum(e)
-            err_checks.append(f'{ERR_CODE[got]} =? {ERR_CODE["TypeError"]}')
-            err_labels.append(dict(solver=ctor.__name__, trans=tr_, got=got, expected='TypeError'))
-            ctx.case(('badtrans', ctor.__name__, tr_), True)
-            ctx.count('malformed:invalid trans')
-    try:
-        S.SolverSparseLU(sps.csc_matrix(A3)).solve(np.array([1j, 2, 3]))
-        got = 'none'
-    except Exception as e:
-        got = lc.exc_enum(e)
-    err_checks.append(f'{ERR_CODE[got]} =? {ERR_CODE["TypeError"]}')
-    err_labels.append(dict(solver='SolverSparseLU', case='complex rhs for real matrix', got=got, expected='TypeError'))
-    ctx.case(('complex-rhs-real-sparse',), True)
-    ctx.count('malformed:complex rhs real sparse')
-
-    # ---- evaluate inside Coq
-    failing, err = vlib.run_cases(ctx, 'solve', lc.CQ_HEADER, checks, chunk=60)
-    failing2, err2 = vlib.run_cases(ctx, 'auto', AUTO_HEADER, auto_checks, chunk=1500)
-    failing3, err3 = vlib.run_cases(ctx, 'err', ERR_HEADER, err_checks, chunk=500)
-    allerr = '\n'.join(e for e in (err, err2, err3) if e)
-    ctx.obligation('correspondence:case files evaluated', 'correspondence', not allerr, allerr)
-    if allerr:
-        ctx.violation('correspondence', 'solvers', 'case files compile', 'harness', dict(error=allerr[-3000:]), theorem='cases')
-    for idx in failing[:20]:
-        if idx in oracle_fail:
-            continue   # already reported with a concrete implementation-level violation
-        ctx.violation('correspondence', str(labels[idx][0]) + '.solve', 'x equals the exact solution of the requested system (1e-9), shape, dtype',
-                      f'{labels[idx][1]} matrix', dict(label=[str(v) for v in labels[idx]], replay=meta[idx]),
-                      note='exact rational solution (checked inside Coq) and implementation differ')
-    for idx in failing2[:20]:
-        ctx.violation('correspondence', 'auto_determine_solver', 'returned solver class == Model/AutoSolver.v', 'decision table',
-                      auto_labels[idx], note='Coq model: ' + auto_checks[idx][:400])
-    for idx in failing3[:20]:
-        ctx.violation('impl-violates', err_labels[idx]['solver'] + '.solve', 'invalid request raises TypeError', 'malformed request',
-                      err_labels[idx], expected='TypeError', got=err_labels[idx]['got'])
-    ctx.extra['solve_cases'] = len(checks)
-    ctx.extra['auto_cases'] = len(auto_checks)
-
-    # ---- (iv) CG with every preconditioner: post-condition only
-    cg_sweep(ctx, pym)
-
-
-def load_corpus():
-    d = os.path.join(vlib.ROOT, 'corpus', 'C05')
-    out = []
-    if os.path.isdir(d):
-        for fn in sorted(os.listdir(d)):
-            if fn.endswith('.json'):
-                with open(os.path.join(d, fn)) as f:
-                    j = json.load(f)
-                out += j if isinstance(j, list) else [j]
-    return out
-
-
-# ----------------------------------------------------------------------------- CG sweep (testing: search_evaluations)
-def cg_sweep(ctx, pym):
-    S = pym.solvers
-    rng = ctx.rng
-    tol = 1e-7
-    nrun = 0
-
-    def check(label, A, solver, b, t, x0, cls):
-        nonlocal nrun
-        nrun += 1
-        ctx.search_evaluations += 1
-        ctx.count('cg:' + label)
-        ctx.count('cg:trans:' + t)
-        ctx.count('cg:x0' if x0 is not None else 'cg:no x0')
-        replay = dict(solver='CG', preconditioner=label, A=(A.toarray() if sps.issparse(A) else A).tolist().__repr__()[:6000],
-                      b=b.tolist().__repr__()[:3000], trans=t, x0=None if x0 is None else x0.tolist().__repr__()[:3000])
-        with warnings.catch_warnings(record=True) as w:
-            warnings.simplefilter('always')
-            try:
-                x = solver.solve(b.copy(), x0=None if x0 is None else x0.copy(), trans=t)
-            except Exception as e:
-                ctx.violation('impl-violates', 'CG.solve', 'solve raises for a Hermitian positive definite matrix', cls, dict(replay, error=repr(e)))
-                return
-        warned = any('Maximum iterations' in str(m.message) for m in w)
-        Ao = opmat(A, t)
-        r = Ao @ (x.reshape(x.shape[0], -1)) - b.reshape(b.shape[0], -1)
-        rel = np.linalg.norm(r, axis=0) / np.linalg.norm(b.reshape(b.shape[0], -1), axis=0)
-        want_c = np.iscomplexobj(Ao) or np.iscomplexobj(b)
-        if x.shape != b.shape or (x.dtype.kind == 'c') != want_c:
-            ctx.violation('impl-violates', 'CG.solve', 'x has the shape and dtype class of b', cls, replay, expected=str(b.shape), got=str(x.shape) + str(x.dtype))
-        elif warned or not np.all(rel <= 10 * tol):
-            ctx.violation('impl-violates', 'CG.solve', '||op_trans(A) x - b|| <= 10 tol ||b|| without max-iteration warning', cls,
-                          replay, expected=f'<= {10 * tol}', got=rel.tolist().__repr__())
-
-    def rhs(n, kind, cplx):
-        # CG's exit test is relative to ||b|| per column: a zero column is outside its domain (tval = inf/nan)
-        while True:
-            b = lc.gen_rhs(rng, n, kind, cplx)
-            if np.all(np.any(b.reshape(n, -1) != 0, axis=0)):
-                return b
-
-    nm = 10 if ctx.quick() else 60
-    for k in range(nm):
-        cplx = k % 2 == 1
-        n = rng.choice([2, 3, 4, 5, 6, 8, 12])
-        A = lc.gen_matrix(rng, 'hpd' if cplx else 'spd', n, cplx)
-        for stor in ('dense', 'csc'):
-            As = storage(A, stor)
-            pcs = [('Preconditioner', lambda: S.Preconditioner()), ('DampedJacobi', lambda: S.DampedJacobi(w=rng.choice([0.5, 1.0])))]
-            if stor != 'dense':
-                pcs += [('SOR', lambda: S.SOR(w=rng.choice([0.8, 1.0, 1.3]))), ('ILU', lambda: S.ILU())]
-            for pl, pc in pcs:
-                solver = S.CG(As, preconditioner=pc(), tol=tol, maxit=1000, restart=rng.choice([1, 3, 50]))
-                for t in 'NTH':
-                    kind = rng.choice(['vec', 'col', 'blk', 'dup', 'wide'])
-                    b = rhs(n, kind, cplx)
-                    x0 = None
-                    if rng.random() < 0.5:
-                        x0 = (lc.gen_rhs(rng, n, 'vec', cplx) if b.ndim == 1 else
-                              np.stack([lc.gen_rhs(rng, n, 'vec', cplx) for _ in range(b.shape[1])], axis=1))
-                    check(pl, As, solver, b, t, x0, ('complex ' if cplx else 'real ') + 'HPD matrix, ' + stor)
-    # FE matrices + geometric multigrid (2-D and 3-D, stiffness and Poisson)
-    fe = [((4, 4, 0), 'stiff'), ((6, 4, 0), 'poisson'), ((2, 2, 2), 'stiff'), ((4, 2, 2), 'poisson')]
-    if not ctx.quick():
-        fe += [((8, 8, 0), 'stiff'), ((10, 6, 0), 'poisson'), ((4, 4, 4), 'stiff'), ((4, 4, 2), 'poisson')]
-    for (nx, ny, nz), kind in fe:
-        dom = pym.DomainDefinition(nx, ny, nz)
-        ndof = 1 if kind == 'poisson' else dom.dim
-        nodes = dom.nodes[0, ...].flatten()
-        bc = np.concatenate([nodes * ndof + d for d in range(ndof)])
-        sx = pym.Signal('x', np.array([0.2 + 0.8 * rng.random() for _ in range(dom.nel)]))
-        m = (pym.AssemblePoisson if kind == 'poisson' else pym.AssembleStiffness)(sx, domain=dom, bc=bc)
-        m.response()
-        K = m.sig_out[0].state
-        n = K.shape[0]
-        for cyc in ('V', 'W'):
-            for pl, pc in (('GeometricMultigrid', lambda: S.GeometricMultigrid(dom, cycle=cyc)),
-                           ('GeometricMultigrid+SOR', lambda: S.GeometricMultigrid(dom, cycle=cyc, smoother=S.SOR(w=1.0), smooth_steps=2))):
-                solver = S.CG(K, preconditioner=pc(), tol=tol, maxit=1000)
-                for t in 'NTH':
-                    kb = rng.choice([1, 2])
-                    b = np.array([[rng.randint(-5, 5) for _ in range(kb)] for _ in range(n)], dtype=float)
-                    b[bc, :] = 0
-                    if not np.all(np.any(b, axis=0)):
-                        b[-1, :] = 1
-                    if rng.random() < 0.5:
-                        b = b[:, 0].copy()
-                    x0 = None if rng.random() < 0.5 else np.array(np.random.default_rng(ctx.seed + nrun).standard_normal(b.shape))
-                    check(pl, K, solver, b, t, x0, f'FE {kind} matrix {dom.dim}-D')
-    ctx.extra['cg_runs'] = nrun
-
-
-if __name__ == '__main__':
-    vlib.main(run, 'C05')
